@@ -12,12 +12,16 @@ import (
 func init() {
 	commands["c01"] = func(o *opts) (*summary, error) { return runApiCalls(o, true) }
 	commands["c07"] = func(o *opts) (*summary, error) { return runC07(o) }
+	commands["c16seg"] = runC16Seg
 }
 
 var stubCfgs = []clientCfg{
 	{}, // nothing configured: everything is broadcast to the default address
 	{Broadcast: "192.168.1.255:60000", Devices: []devCfg{{Name: "alpha", Serial: 405419896, Addr: "192.168.1.100:60000", Proto: "udp"}}},
 	{Bind: "192.168.1.10:0", Devices: []devCfg{{Name: "beta", Serial: 303986753, Addr: "192.168.1.101:60001", Proto: "tcp"}}},
+	// the other protocol strings a controller may be configured with (all of them mean UDP)
+	{Bind: "192.168.1.10:50001", Broadcast: "192.168.1.255:60005", Devices: []devCfg{{Name: "alpha", Serial: 405419896, Addr: "192.168.1.100:60000", Proto: "any"},
+		{Name: "beta", Serial: 303986753, Addr: "192.168.1.101:60001", Proto: ""}, {Name: "gamma", Serial: 201020304, Addr: "192.168.1.102:60000", Proto: "TCP"}}},
 }
 
 func argKey(cs callSpec) string {
@@ -55,7 +59,7 @@ func runApiCalls(o *opts, inDomain bool) (*summary, error) {
 	}
 
 	// (1) all ordered pairs of operations on one client (history independence), several rounds
-	rounds := 2
+	rounds := len(stubCfgs)
 	if thorough {
 		rounds = 12
 	}
